@@ -179,3 +179,23 @@ PROPS["C19"] = dict(
     contracts=[], harness="harness.http_native:C19", level="exploration", technique="bounded runtime contract on the real http Client over a fake socket with a scripted server -- stand-in",
     explanation="Bounded stand-in: request queues (GET/POST/PUT/HEAD) against immediate, delayed and fragmented scripted responses; at most one request in flight, transmit order, one response "
                 "per request in order with its body and originating request; redirect followed with history; https->http refused.")
+
+PROPS["C27"] = dict(
+    contracts=["contracts.c27_naming"], harness="harness.c27", level="proof",
+    trusted_base=["python dict as a partial map (pyvc symbolic dict: SMT array + domain array; KeyError on missing key, get() returns None)"],
+    assumptions=["names and addresses are compared only by ==/truthiness (uninterpreted sorts); entries passed to __init__ are added through addNameAddr (its contract covers them)"],
+    explanation="Every mutator and accessor of Namer is interpreted from /repo/src on symbolic maps A, B with bij(A, B) assumed: bij is proved on normal and exceptional exit; "
+                "False / NamerError imply both maps unchanged (extensional equality over the whole domain); True implies the whole new view (A' = A[name:=addr] etc.). "
+                "Holds for all histories by induction over the class invariant.")
+
+PROPS["C26"] = dict(
+    contracts=[], harness="harness.c26", level="exploration", technique="bounded enumeration (exhaustive small domain + structured large values) of the real helpers -- stand-in for the planned loop-invariant proof",
+    explanation="Bounded stand-in: int <-> Base64 round trip for all ints below 64^2+2, powers of 64 +-1 and random ints up to 1000 bits x minimum lengths 0..8; code <-> binary round "
+                "trip for all strings up to length 3/4 and random strings up to length 12; nabSextets against the leading-bits definition for every l. The loop-invariant proof "
+                "of intToB64/b64ToInt sketched in DESIGN.md (uninterpreted E/D with induction axioms) is not built yet.")
+
+PROPS["C25"] = dict(
+    contracts=[], harness="harness.c25", level="exploration", technique="bounded runtime contract on the real Boxer.run / Boxer.end over random box forests -- stand-in for the planned exen/run contracts",
+    explanation="Bounded stand-in: random box forests (depth <= 3), random first box, up to 4 transitions per run fired by a random box of the active pile towards a random destination "
+                "(sibling, cousin, ancestor, descendant, self, other tree), with and without failing preconditions, then end(); logged act order compared with the prescribed one "
+                "(exited bottom-up, kept re-exited bottom-up, kept re-entered top-down, entered top-down, declaration order within a box).")
